@@ -318,12 +318,14 @@ func (p *Primary) StreamWAL(
 
 // sendUpdatedEntries sends any new WAL entries to the replica since its last acknowledged sequence
 func (p *Primary) sendUpdatedEntries(session *ReplicaSession) error {
-	// Take the mutex to safely read and update session state
+	// Read the session state under its mutex, but do not hold the mutex while
+	// reading the WAL: the WAL mutex is held by client writes, which must
+	// never wait - directly or through the session table - for a session
 	session.mu.Lock()
-	defer session.mu.Unlock()
 
 	// Get the next sequence number we should send
 	nextSequence := session.LastAckSequence + 1
+	session.mu.Unlock()
 
 	log.Info("Sending updated entries to replica %s starting from sequence %d",
 		session.ID, nextSequence)
@@ -362,7 +364,10 @@ func (p *Primary) sendUpdatedEntries(session *ReplicaSession) error {
 		Codec:      proto.CompressionCodec_NONE,
 	}
 
-	// Send to the replica (we're already holding the lock)
+	// Sends on one stream are serialized by the session mutex
+	session.mu.Lock()
+	defer session.mu.Unlock()
+
 	if err := session.Stream.Send(response); err != nil {
 		return fmt.Errorf("failed to send entries: %w", err)
 	}
@@ -771,10 +776,12 @@ func (p *Primary) getSessionIDFromContext(ctx context.Context) string {
 
 // updateSessionAck updates a session's acknowledged sequence
 func (p *Primary) updateSessionAck(sessionID string, ackSeq uint64) error {
-	p.mu.Lock()
-	defer p.mu.Unlock()
-
+	// Look the session up, then let go of the session table: the session
+	// mutex below can be held by a send that is blocked on a replica, and
+	// client writes need the session table while they hold the WAL mutex
+	p.mu.RLock()
 	session, exists := p.sessions[sessionID]
+	p.mu.RUnlock()
 	if !exists {
 		return fmt.Errorf("session %s not found", sessionID)
 	}
